@@ -1,0 +1,211 @@
+//! Verification hooks (cargo feature `verif`).
+//!
+//! This module only re-exports crate-private functionality as plain data so that an external
+//! harness can observe it. It adds no behaviour of its own: every function builds the same
+//! structures the command line builds and calls the same entry points.
+
+use {
+    crate::{
+        command_line::arguments::{Decomposition, FormulaRepresentation},
+        simplifying::fol::sigma_0::{classic::CLASSIC, ht::HT, intuitionistic::INTUITIONISTIC},
+        syntax_tree::{asp::mini_gringo as asp, fol::sigma_0 as fol},
+        verifying::{
+            problem::{Problem, Role},
+            task::{
+                Task as _, external_equivalence::ExternalEquivalenceTask,
+                strong_equivalence::StrongEquivalenceTask,
+            },
+        },
+    },
+    either::Either,
+};
+
+/// One formula of an emitted problem.
+#[derive(Clone, Debug)]
+pub struct FormulaData {
+    pub name: String,
+    pub conjecture: bool,
+    pub formula: fol::Formula,
+}
+
+/// One emitted problem: its name, its formulas in order and the exact text `Display` produces.
+#[derive(Clone, Debug)]
+pub struct ProblemData {
+    pub name: String,
+    pub formulas: Vec<FormulaData>,
+    pub text: String,
+}
+
+impl From<Problem> for ProblemData {
+    fn from(problem: Problem) -> Self {
+        let text = problem.to_string();
+        ProblemData {
+            name: problem.name,
+            formulas: problem
+                .formulas
+                .into_iter()
+                .map(|f| FormulaData {
+                    name: f.name,
+                    conjecture: f.role == Role::Conjecture,
+                    formula: f.formula,
+                })
+                .collect(),
+            text,
+        }
+    }
+}
+
+pub type Simplification = fn(fol::Formula) -> fol::Formula;
+
+/// The simplification portfolios exactly as `simplify --portfolio` concatenates them.
+pub fn portfolios() -> Vec<(&'static str, Vec<Simplification>)> {
+    vec![
+        ("intuitionistic", [INTUITIONISTIC].concat()),
+        ("ht", [INTUITIONISTIC, HT].concat()),
+        ("classic", [INTUITIONISTIC, HT, CLASSIC].concat()),
+    ]
+}
+
+/// The individual rewrites, by name, for attributing a change to a rewrite.
+pub fn rewrites() -> Vec<(&'static str, &'static str, Simplification)> {
+    use crate::simplifying::fol::sigma_0::{classic, intuitionistic as int};
+    let mut result: Vec<(&'static str, &'static str, Simplification)> = vec![
+        ("intuitionistic", "evaluate_comparisons", int::evaluate_comparisons),
+        (
+            "intuitionistic",
+            "apply_negation_definition_inverse",
+            int::apply_negation_definition_inverse,
+        ),
+        (
+            "intuitionistic",
+            "apply_reverse_implication_definition",
+            int::apply_reverse_implication_definition,
+        ),
+        (
+            "intuitionistic",
+            "apply_equivalence_definition_inverse",
+            int::apply_equivalence_definition_inverse,
+        ),
+        ("intuitionistic", "remove_identities", int::remove_identities),
+        ("intuitionistic", "remove_annihilations", int::remove_annihilations),
+        ("intuitionistic", "remove_idempotences", int::remove_idempotences),
+        (
+            "intuitionistic",
+            "remove_orphaned_variables",
+            int::remove_orphaned_variables,
+        ),
+        (
+            "intuitionistic",
+            "remove_empty_quantifications",
+            int::remove_empty_quantifications,
+        ),
+        ("intuitionistic", "join_nested_quantifiers", int::join_nested_quantifiers),
+        ("classic", "remove_double_negation", classic::remove_double_negation),
+        (
+            "classic",
+            "substitute_defined_variables",
+            classic::substitute_defined_variables,
+        ),
+    ];
+    // the three "unstable" rewrites are private to their module; they are CLASSIC[2..5]
+    for (name, f) in ["restrict_quantifier_domain", "extend_quantifier_scope", "simplify_transitive_equality"]
+        .into_iter()
+        .zip(CLASSIC[2..].iter())
+    {
+        result.push(("classic", name, *f));
+    }
+    result
+}
+
+fn decomposition(sequential: bool) -> Decomposition {
+    if sequential {
+        Decomposition::Sequential
+    } else {
+        Decomposition::Independent
+    }
+}
+
+/// The problems of `verify --equivalence strong`.
+pub fn strong(
+    left: asp::Program,
+    right: asp::Program,
+    sequential: bool,
+    direction: fol::Direction,
+    mu: bool,
+    simplify: bool,
+    break_equivalences: bool,
+) -> Vec<ProblemData> {
+    match (StrongEquivalenceTask {
+        left,
+        right,
+        decomposition: decomposition(sequential),
+        direction,
+        formula_representation: if mu {
+            FormulaRepresentation::Mu
+        } else {
+            FormulaRepresentation::TauStar
+        },
+        simplify,
+        break_equivalences,
+    })
+    .decompose()
+    {
+        Ok(problems) => problems.data.into_iter().map(ProblemData::from).collect(),
+        Err(e) => match e {},
+    }
+}
+
+/// The problems (and warnings) of `verify --equivalence external`, or the error's variant
+/// name and message.
+#[allow(clippy::too_many_arguments)]
+pub fn external(
+    specification: Either<asp::Program, fol::Specification>,
+    program: asp::Program,
+    user_guide: fol::UserGuide,
+    proof_outline: fol::Specification,
+    sequential: bool,
+    direction: fol::Direction,
+    mu: bool,
+    bypass_tightness: bool,
+    simplify: bool,
+    break_equivalences: bool,
+) -> Result<(Vec<ProblemData>, Vec<String>), (String, String)> {
+    match (ExternalEquivalenceTask {
+        specification,
+        program,
+        user_guide,
+        proof_outline,
+        decomposition: decomposition(sequential),
+        direction,
+        formula_representation: if mu {
+            FormulaRepresentation::Mu
+        } else {
+            FormulaRepresentation::TauStar
+        },
+        bypass_tightness,
+        simplify,
+        break_equivalences,
+    })
+    .decompose()
+    {
+        Ok(problems) => Ok((
+            problems.data.into_iter().map(ProblemData::from).collect(),
+            problems.warnings.iter().map(|w| w.to_string()).collect(),
+        )),
+        Err(e) => {
+            let debug = format!("{e:?}");
+            let variant = debug
+                .split(|c: char| !c.is_alphanumeric())
+                .next()
+                .unwrap_or("")
+                .to_string();
+            let detail = match &e {
+                crate::verifying::task::external_equivalence::ExternalEquivalenceTaskError::ProofOutlineError(inner) => {
+                    format!("{e}{inner}")
+                }
+                _ => e.to_string(),
+            };
+            Err((variant, detail))
+        }
+    }
+}
